@@ -547,4 +547,14 @@ theorem sleep_counts_running_time_only : ∀ (ops : List SleepOp) (s s' : PSleep
 example : ((PSleep.new 100).run [.advance 60, .pause, .advance 500, .resume, .advance 39]).map (fun s => (s.fired, s.remaining)) = some (false, 1) ∧
     ((PSleep.new 100).run [.advance 60, .pause, .advance 500, .resume, .advance 40, .resetLast]).map (fun s => (s.fired, s.remaining)) = some (false, 100) := by decide
 
+/-- **Stop and Continue are broadcast to every running unit, whatever is running** (dispatcher.rs `run`, as translated on this
+    run): the arm for a job-control response broadcasts the request unconditionally — not only when a *test* is running (a setup
+    script is a unit too; `DState.broadcast` reaches it first) -/
+theorem stop_and_continue_are_always_broadcast :
+    ("JobControl/Stop", [("stop", true)]) ∈ Gen.responseBroadcasts ∧
+    ("JobControl/Continue", [("continue", true)]) ∈ Gen.responseBroadcasts ∧
+    Dispatcher.responseRow .jobStop = ("JobControl/Stop", [("stop", true)]) ∧
+    Dispatcher.responseRow .jobContinue = ("JobControl/Continue", [("continue", true)]) := by
+  refine ⟨by decide, by decide, by decide, by decide⟩
+
 end NextestModel.C12
